@@ -79,29 +79,33 @@ impl<A: AsMut<ArrayBuilder>> serde::ser::Serializer for Serializer<A> {
     type SerializeStruct = Impossible<Self::Ok, Self::Error>;
     type SerializeStructVariant = Impossible<Self::Ok, Self::Error>;
 
-    fn serialize_seq(self, _len: Option<usize>) -> Result<Self::SerializeSeq> {
+    fn serialize_seq(mut self, _len: Option<usize>) -> Result<Self::SerializeSeq> {
+        self.0.as_mut().ensure_consistent()?;
         Ok(CollectionSerializer(self.0))
     }
 
-    fn serialize_tuple(self, _: usize) -> Result<Self::SerializeTuple> {
+    fn serialize_tuple(mut self, _: usize) -> Result<Self::SerializeTuple> {
+        self.0.as_mut().ensure_consistent()?;
         Ok(CollectionSerializer(self.0))
     }
 
     fn serialize_tuple_struct(
-        self,
+        mut self,
         _: &'static str,
         _: usize,
     ) -> Result<Self::SerializeTupleStruct> {
+        self.0.as_mut().ensure_consistent()?;
         Ok(CollectionSerializer(self.0))
     }
 
     fn serialize_tuple_variant(
-        self,
+        mut self,
         _: &'static str,
         _: u32,
         _: &'static str,
         _: usize,
     ) -> Result<Self::SerializeTupleVariant> {
+        self.0.as_mut().ensure_consistent()?;
         Ok(CollectionSerializer(self.0))
     }
 
